@@ -176,6 +176,15 @@ async fn concurrent_scenario(dir: std::path::PathBuf, cfg: Cfg, seed: u64, limit
     tap::arm(&dir, true, false);
     s.init().await.map_err(|e| ("init".to_string(), format!("{:#}", e)))?;
     let s = std::sync::Arc::new(s);
+    // half of the scenarios: a few blob writes are held between the reservation of their offset and the
+    // pwrite (failpoint delay), so that background syncs run while a reserved range has not landed yet
+    if rng.chance(1, 2) {
+        let mut faults = Vec::new();
+        for _ in 0..rng.range(1, 4) {
+            faults.push(tap::Fault { kinds: vec![tap::Kind::Write], suffix: ".blob".into(), nth: rng.range(1, 40), sticky: false, action: tap::Action::Delay(rng.range(2, 25)) });
+        }
+        tap::set_faults(&dir, faults);
+    }
     let tasks = rng.range(4, 24);
     let mut hs = Vec::new();
     for t in 0..tasks {
